@@ -76,9 +76,31 @@ def stmt_pos_of_write(bi, field_term):
     return out
 
 
+def count_operand(M, bi, fut):
+    """the MIR operand that supplies the `count` field of the EnumerateFuture built at term `fut`"""
+    if fut[0] == "call":
+        site = bi.by_block.get(fut[3])
+        inner = flow.struct_view(M, ("call", fut[1], tuple(("param", k + 1) for k in range(len(fut[2]))), 0), "EnumerateFuture")
+        if site is None or inner is None or inner.get("count", ("x",))[0] != "param":
+            return None
+        k = inner["count"][1]
+        return site.t["args"][k - 1] if k - 1 < len(site.t["args"]) else None
+    if fut[0] == "agg":
+        for bb in sorted(bi.body.reachable):
+            for st in bi.body.stmts(bb):
+                if st["k"] == "assign" and st["rv"]["k"] == "agg" and st["rv"].get("ak") == "adt" and (st["rv"].get("cpath") or "").endswith("::EnumerateFuture"):
+                    names = st["rv"].get("fnames") or []
+                    if "count" in names:
+                        return st["rv"]["fields"][names.index("count")]
+    return None
+
+
 def operand_read_pos(bi, site, argi, field_term):
-    """the call argument is a local whose single definition copies `field_term`: (block, idx) of that copy"""
-    op = site.t["args"][argi]
+    return operand_read_pos_op(bi, site.t["args"][argi], field_term)
+
+
+def operand_read_pos_op(bi, op, field_term):
+    """the operand is a local whose single definition copies `field_term`: (block, idx) of that copy"""
     p = op_place(op)
     if p is None or p["p"]:
         return None
@@ -114,27 +136,30 @@ def rule_enum(ctx, M):
     b = ent["send"]
     bi = M.info(b)
     cnt = cfield("count")
-    news = [s for s in bi.sites if s.callee.owner == "EnumerateFuture" and s.callee.name == "new"]
-    ups = flow.counter_updates(bi, "count") if False else [(blk, d) for blk, pt, d, sp in scan.increments(bi) if pt == cnt]
+    ups = [(blk, d) for blk, pt, d, sp in scan.increments(bi) if pt == cnt]
     writes = stmt_pos_of_write(bi, cnt)
     probs = []
-    if len(news) != 1:
-        probs.append("expected one EnumerateFuture::new (found %d)" % len(news))
+    sends = [s for s in bi.sites if s.callee.name == "send" and s.callee.trait == "Consumer"]
+    if len(sends) != 1 or sends[0].arg(0) != cfield("inner"):
+        probs.append("expected exactly one inner.send(..)")
     if len(writes) != 1 or len(ups) != 1 or ups[0][1] != 1:
         probs.append("count is not incremented by exactly one, exactly once")
     if not probs:
-        n = news[0]
-        if n.arg(0) != cupvar(1):
-            probs.append("the wrapped future is not the given item future")
-        rp = operand_read_pos(bi, n, 1, cnt)
-        if rp is None:
-            probs.append("the index handed to EnumerateFuture::new is not a copy of `count`")
-        elif not before(bi, rp, writes[0]):
-            probs.append("the index is read after `count` was incremented (off by one)")
-        sends = [s for s in bi.sites if s.callee.name == "send" and s.callee.trait == "Consumer"]
-        if len(sends) != 1 or sends[0].arg(0) != cfield("inner") or sends[0].arg(1) != n.term:
-            probs.append("inner.send is not given the EnumerateFuture just built")
+        fut = sends[0].arg(1)
+        sv = flow.struct_view(M, fut, "EnumerateFuture")
+        if sv is None:
+            probs.append("inner.send is not given a freshly built EnumerateFuture")
         else:
+            if sv.get("fut_t") != cupvar(1):
+                probs.append("the wrapped future is not the given item future")
+            if sv.get("done") != ("const", 0):
+                probs.append("the EnumerateFuture does not start un-done")
+            op = count_operand(M, bi, fut)
+            rp = operand_read_pos_op(bi, op, cnt) if op is not None else None
+            if sv.get("count") != cnt or rp is None:
+                probs.append("the index handed to the EnumerateFuture is not a copy of `count`")
+            elif not before(bi, rp, writes[0]):
+                probs.append("the index is read after `count` was incremented (off by one)")
             if not bi.body.blocks_dominate([writes[0][0]], sends[0].block):
                 probs.append("count is not incremented on every send")
     ctx.check(not probs, "C15.ENUM", b.def_, "send: index = count before its single +1; EnumerateFuture::new(<given future>, index) forwarded",
@@ -147,18 +172,13 @@ def rule_enum(ctx, M):
                 nb = x
             elif x.name == "poll":
                 pb = x
-    ctx.require(nb is not None and pb is not None, "EnumerateFuture::{new, poll}")
-    ni = M.info(nb)
-    rets = flow.returned_values(ni)
-    ok = False
-    for blk, k, p, t in rets:
-        if t[0] == "agg" and t[1][0] == "EnumerateFuture":
-            for bb in sorted(nb.reachable):
-                for st in nb.stmts(bb):
-                    if st["k"] == "assign" and st["rv"]["k"] == "agg" and st["rv"].get("ak") == "adt" and (st["rv"].get("cpath") or "").endswith("EnumerateFuture"):
-                        fs = dict(zip(st["rv"]["fnames"], t[2]))
-                        ok = fs.get("count") == ("param", 2) and fs.get("fut_t") == ("param", 1)
-    ctx.check(ok, "C15.ENUM", nb.def_, "EnumerateFuture::new stores the given future and index", site=nb.span)
+    ctx.require(pb is not None, "EnumerateFuture::poll")
+    if nb is not None:
+        sv0 = flow.struct_view(M, ("call", ("EnumerateFuture", "new"), (("param", 1), ("param", 2)), 0), "EnumerateFuture")
+        ok = sv0 is not None and sv0.get("count") == ("param", 2) and sv0.get("fut_t") == ("param", 1)
+        ctx.check(ok, "C15.ENUM", nb.def_, "EnumerateFuture::new stores the given future and index", site=nb.span)
+    else:
+        ctx.ok("C15.ENUM", "<crate>", "EnumerateFuture has no constructor function (built by struct literal, checked at the send site)")
     pi = M.info(pb)
     cps = pi.child_polls()
     readys = flow.returns_of(pi, "Ready")
